@@ -21,14 +21,14 @@ package jd
 
 //@ contract JsonNode.Equals
 //@   requires validNode(self) && validNode(n)
-//@   ensures [C17] ret0 == specEq(self, n, metadata)
+//@   ensures [C17] specListMode(metadata) ==> ret0 == specEq(self, n, metadata)
 //@   carries C17
 
 //@ contract (jsonList).Equals
-//@   loop "range l1" invariant specEqList(l1[:idx], l2[:idx], metadata)
+//@   loop "range l1" invariant specListMode(metadata) ==> specEqList(l1[:idx], l2[:idx], metadata)
 
 //@ contract (jsonObject).Equals
-//@   loop "range o1" invariant forallKey(o1, o1, func(k string) bool { return !visited(k) || (mapHas(o2, k) && specEq(o1[k], o2[k], metadata)) })
+//@   loop "range o1" invariant specListMode(metadata) ==> forallKey(o1, o1, func(k string) bool { return !visited(k) || (mapHas(o2, k) && specEq(o1[k], o2[k], metadata)) })
 
 // Set and multiset equality is decided by hash codes; jsonStringOrInteger compares through
 // strconv.Atoi: bounded only.
@@ -41,7 +41,8 @@ package jd
 
 //@ contract diff
 //@   requires validNode(a) && validNode(b)
-//@   ensures [C17] (len(ret0) == 0) == specEq(a, b, metadata)
+//@   ensures_bounded [C17] (len(ret0) == 0) == a.Equals(b, metadata...)
+//@   ensures [C17] specListMode(metadata) ==> (len(ret0) == 0) == specEq(a, b, metadata)
 //@   carries C17
 
 // ---------------------------------------------------------------------
